@@ -60,7 +60,7 @@ func guardOrWrapper(p *load.Program, f *ssa.Function, direct func(*ssa.Function)
 func checkC04(p *load.Program, r *kit.Report) {
 	r.NotDecided = "correctness of the dependency's merkle tree/proof construction (that each emitted proof verifies): merkle_proof.MerkleTree is trusted; block contents as values."
 	r.Rule("GUARD-DOM", "ProcessCoinbaseTx, ConfirmTx and AppendBlockTxIDs are dominated by (a) received count == announced txCount, (b) FinalizeMerkleProofs() root Equal header.MerkleRoot (directly or through a wrapper all of whose successes are behind it), (c) len(proofs) == len(relevant txids); HandleBlock delegates only behind requestedHash.Equal(hash of the delivered header); the node starts the handler only behind blockRequest.Equal(blockHash)", 11)
-	r.Rule("MUST-PASS", "per received tx: AddHash(txid) exactly once and the counter +1 exactly once on every path to the next iteration, txid = *tx.TxHash(); relevant txids and AddMerkleProof only behind isRelevant, before AddHash; the node closes txChannel exactly once on every exit after creating it", 2)
+	r.Rule("MUST-PASS", "per received tx: AddHash(txid) exactly once and the counter +1 exactly once on every path to the next iteration, txid = *tx.TxHash(); relevant txids and AddMerkleProof only behind isRelevant, before AddHash; every relevant tx gets its proof requested; every iteration of the confirmation loop calls ConfirmTx; the node closes txChannel exactly once on every exit after creating it", 3)
 	r.Rule("PAIRING", "ConfirmTx(txid, height, proof) gets blockTxIDs[i] and the tree's own merkleProofs[i] (same index), after BlockHeader/BlockHash of that proof were set from the verified header", 2)
 	r.Rule("OWNERSHIP", "the *wire.BlockHeader the node passes to the block handler (and that the downloader stores in every confirmed proof) is allocated in handleBlock for that message, never shared storage", 1)
 	r.Rule("ORDER", "coinbase → confirmations → AppendBlockTxIDs, each behind the previous success", 2)
@@ -259,6 +259,23 @@ func checkC04(p *load.Program, r *kit.Report) {
 			if len(addProof) == 0 {
 				bad = "no merkle proof is ever requested"
 			}
+			// … and for every tx the processor marked relevant: from ProcessTx, a path that does
+			// not take the not-relevant edge must request the proof before the tx is hashed
+			if len(rel) > 0 && len(addProof) > 0 {
+				notRel := map[kit.Edge]bool{}
+				for _, e := range edgesOf(rel, false) {
+					notRel[e] = true
+				}
+				var aps []ssa.Instruction
+				for _, ap := range addProof {
+					aps = append(aps, ap)
+				}
+				stop := kit.InstrSet(aps...)
+				rr := kit.Reach(f, kit.After(procs[0]), kit.Opts{StopAt: stop, BlockEdge: func(e kit.Edge) bool { return notRel[e] }})
+				if rr.Has(ah) {
+					bad = "a tx the processor marked relevant can be hashed without its proof being requested (" + rr.PathTo(ah, p.Pos) + "): it is never confirmed although the block is reported complete"
+				}
+			}
 		}
 	}
 	r.Check(bad == "", "MUST-PASS", "handleBlock/per-tx", pos, "AddHash(txid) and i++ exactly once per received tx; AddMerkleProof iff relevant, before AddHash", bad)
@@ -333,6 +350,18 @@ func checkC04(p *load.Program, r *kit.Report) {
 			okH = true
 		}
 		r.Check(okH, "PAIRING", "handleBlock/ConfirmTx-height", posOf(p, confirm), "height is the downloader's height", "the confirmation height is not the requested block's height")
+		// every relevant txid is confirmed: no iteration of the confirmation loop reaches the next
+		// one (or the loop exit) without ConfirmTx, except by returning an error
+		badC := ""
+		if header, body := loopBodyEntry(f, confirm); header == nil || body == nil {
+			badC = "ConfirmTx is not called in a loop over the relevant txids"
+		} else {
+			rr := kit.Reach(f, []kit.Pt{{B: body, I: 0}}, kit.Opts{StopAt: kit.InstrSet(confirm)})
+			if rr.Has(header.Instrs[0]) {
+				badC = "an iteration of the confirmation loop can skip ConfirmTx (" + rr.PathTo(header.Instrs[0], p.Pos) + "): a tx the processor marked relevant is not confirmed although the block is reported complete"
+			}
+		}
+		r.Check(badC == "", "MUST-PASS", "handleBlock/confirm-every-relevant", posOf(p, confirm), "every iteration over the relevant txids calls ConfirmTx or returns an error", badC)
 	}
 	// ORDER
 	if coinbase != nil && confirm != nil && appendIDs != nil {
